@@ -7,7 +7,7 @@
               "badcase ..."    (harness or model defect: unparsable case, or the oracle fails on the model) *)
 From Coq Require Import List String Ascii Bool Arith NArith.
 Import ListNotations.
-Require Import SDJ.Json SDJ.Wire SDJ.Model2 SDJ.Out SDJ.Restore2 SDJ.Split SDJ.SplitM SDJ.Spec SDJ.Verify SDJ.CaseLib.
+Require Import SDJ.Json SDJ.Wire SDJ.Model2 SDJ.Out SDJ.Restore2 SDJ.Split SDJ.SplitM SDJ.Spec SDJ.Verify SDJ.CaseLib SDJ.Issuer2 SDJ.CaseIssue.
 Local Open Scope string_scope.
 
 (* generic decision: oracle on the implementation first, then model = implementation, then oracle on the model *)
@@ -141,6 +141,7 @@ Definition case_verify (input obs : json) : verdict :=
 Definition run_case (kind : string) (input obs : json) : verdict :=
   if String.eqb kind "split" then case_split input obs
   else if String.eqb kind "verify" then case_verify input obs
+  else if String.eqb kind "issue" then case_issue input obs
   else VBad ("unknown kind " ++ kind).
 
 Definition run_line (kind input obs : string) : string :=
